@@ -83,7 +83,8 @@ CLAIMED = {
         "+3, major-for-minor +9, diminished cycle +3/+6/+9, harmonic substitutes share two notes in every major key, all rule "
         "outputs well-formed). Unbounded: parse_spec / toChords_spec / parse_format_id for any number of prefix accidentals, "
         "either case, any suffix the scanner stops at; shift_spec (each accidental = one semitone on every note, same letter); "
-        "minor_for_major_spec / major_for_minor_spec for any prefix. Function table and all progressions.py tables regenerated "
+        "minor_for_major_spec / major_for_minor_spec for any prefix; *_only_documented (five theorems, EVERY string: with "
+        "ignore_suffix off each rule answers [] outside the suffixes / unsuffixed degrees its docstring names). Function table and all progressions.py tables regenerated "
         "from the source (Tie A); 22k differential cases incl. caller's-list-unchanged checks (Tie B).",
    note=TRUST + "'Leaves the caller's progression unchanged' is a correspondence clause here (deep copy compared afterwards); the "
         "aliasing model is C15's. substitute_diminished_for_dominant is tied by correspondence only (the property promises "
@@ -127,7 +128,10 @@ CLAIMED = {
         "operation list; append-then-sort proved equal to ordered insertion); addNoteObj_mem / remove_mem give the set-model "
         "semantics of each operation; voicing_partial (bare name lands in [top, top+12) when both unreduced offsets are in "
         "0..11) with a kernel-checked counterexample to the full clause = known finding C12-bare-name-voicing; chord_constructor "
-        "(every shorthand x 21 roots, kernel); pairwise_spec (consonance predicates = all pairs), eq_spec. Tie A: the octave "
+        "(every shorthand x 21 roots, kernel); pairwise_spec (consonance predicates = all pairs), eq_spec; fromInterval_members + "
+        "fromInterval_spec (C12Interval.lean: the container built from an interval shorthand holds exactly the start note and the "
+        "note that many semitones above / below it, on the letter the interval number requires, ordered by pitch - every canonical "
+        "name, every shorthand of size 0..11, EVERY octave incl. 0 and below, both directions). Tie A: the octave "
         "expressions / duplicate test of add_note; Tie B: all histories of depth <=3/4 over a 16-op alphabet + random depth 40, "
         "each step judged against a set model started from the implementation's previous state.",
    note=TRUST + "Known finding C12-bare-name-voicing listed with a matcher (failing sub-step adds a bare name, an involved name has an "
@@ -331,7 +335,10 @@ CLAIMED = {
         "OWN tuning, decoding as above, every track but the first after two || lines, a track that has run out shows nothing, "
         "three empty lines end the row, and the slices over all rows are each track's bars once and in order - chunks_cover; any "
         "number of tracks, bars, entries; registered_tuningOK for the side condition; sys_step_sys is the step shared with "
-        "from_Track); chord_sound + chord_span (C20Chord.lean: "
+        "from_Track); fromNote_decode + fromNotePinned_decode + pinned_position_sounds + fromNotePinned_fallback (C20Pinned.lean: "
+        "whatever from_Note draws reads back as ONE fret on ONE string, that string sounds the note there and no string sounds it "
+        "at a lower fret; a note carrying a valid (string, fret) position is drawn exactly there and the open string raised by the "
+        "fret is the note, an invalid position falls back to the search; any tuning, note, width); chord_sound + chord_span (C20Chord.lean: "
         "every fingering find_chord_fingering returns has one entry per string, every fretted entry lies within 0..maxfret and "
         "sounds a pitch class of the chord, every chord name is covered, at most max_fingers fingers, non-open frets less than "
         "max_distance apart - via follow_spec, makeTable_good, findNoteNames_spec); fromBar_decode + decodes_spec "
